@@ -18,7 +18,9 @@ struct Case {
 
 const RULES5: &str = "rule ra { a == 1 <<ma>> }\nrule rb { b == 1 <<mb>> }\nrule rc when z exists { a == 1 }\nrule rd { l[*].x == 1 <<md>> }\nrule re { a exists }\nrule rf {\n  ra or\n  rd\n}\n";
 const RULES_B: &str = "let v = l[*].x\nrule sa { %v in [1, 2] <<sa>> }\nrule sb { some l[*].y exists <<sb>> }\nrule sc { b == a <<sc>> }\n";
-const DATA: [&str; 3] = ["{\"a\":2,\"b\":2,\"l\":[{\"x\":1},{\"x\":3},{\"y\":0}]}", "{\"a\":1,\"b\":1,\"l\":[{\"x\":1}]}", "{\"b\":0,\"l\":[]}"];
+// query-against-query comparisons (several left-hand values missing from / differing with the right-hand side), key captures
+const RULES_C: &str = "rule qa { l[*].x in m[*] <<qa>> }\nrule qb { l[*].x in m <<qb>> }\nrule qc { some l[*].x in m[*] <<qc>> }\nrule qd { l[*].x not in m[*] <<qd>> }\nrule qe { l[*].x == m[*] <<qe>> }\nrule qf { l[*].x != m[*] <<qf>> }\nrule qg { l[*].x < m[*] <<qg>> }\nrule qh { n.* in m <<qh>> }\nrule qi { n[ keys == /k/ ] !empty <<qi>> }\nrule qj {\n  let ks = n[ keys == /k/ ]\n  %ks in m <<qj>>\n}\nrule qk { m[*] in l[*].x <<qk>> }\n";
+const DATA: [&str; 3] = ["{\"a\":2,\"b\":2,\"l\":[{\"x\":1},{\"x\":3},{\"y\":0},{\"x\":4},{\"x\":6}],\"m\":[7,8,9,1],\"n\":{\"k1\":5,\"k2\":6,\"k3\":7,\"j\":8}}", "{\"a\":1,\"b\":1,\"l\":[{\"x\":1}],\"m\":[1],\"n\":{\"k1\":1}}", "{\"b\":0,\"l\":[]}"];
 const CFN_RULES: &str = "rule s3 { Resources.*[ Type == 'AWS::S3::Bucket' ].Properties.Name == \"x\" <<name>> }\nrule vol { AWS::EC2::Volume { Properties.Size <= 10 <<size>> } }\nrule cased { resources.*.properties.bucket_name exists }\n";
 const CFN_DATA: &str = "{\n  \"Resources\": {\n    \"b1\": {\"Type\": \"AWS::S3::Bucket\", \"Properties\": {\"Name\": \"y\", \"BucketName\": \"q\"}},\n    \"b2\": {\"Type\": \"AWS::S3::Bucket\", \"Properties\": {\"Name\": \"x\", \"bucketName\": \"r\"}},\n    \"v1\": {\"Type\": \"AWS::EC2::Volume\", \"Properties\": {\"Size\": 50, \"bucket_name\": 1}}\n  }\n}\n";
 const TEST_FILE: &str = "- name: one\n  input: {a: 1, b: 1, l: [{x: 1}]}\n  expectations:\n    rules:\n      ra: PASS\n      rb: FAIL\n      rc: SKIP\n      rd: PASS\n      re: FAIL\n      rf: PASS\n- name: two\n  input: {a: 2, b: 1, l: [{x: 2}]}\n  expectations:\n    rules:\n      ra: PASS\n      rb: PASS\n      rd: PASS\n      rf: FAIL\n";
@@ -35,6 +37,7 @@ fn cases(dir: &str) -> Vec<Case> {
     };
     let r5 = w("r5.guard", RULES5);
     let rb = w("rb.guard", RULES_B);
+    let rc = w("rc.guard", RULES_C);
     let d: Vec<String> = DATA.iter().enumerate().map(|(k, t)| w(&format!("d{}.json", k), t)).collect();
     let cr = w("cfn.guard", CFN_RULES);
     let cd = w("cfn.json", CFN_DATA);
@@ -57,7 +60,7 @@ fn cases(dir: &str) -> Vec<Case> {
         a.extend(sv(extra));
         a
     };
-    let sets: Vec<(&str, Vec<&String>, Vec<&String>)> = vec![("1x1", vec![&r5], vec![&d[0]]), ("2x3", vec![&r5, &rb], vec![&d[0], &d[1], &d[2]]), ("cfn", vec![&cr], vec![&cd]), ("cfn+generic", vec![&cr, &r5], vec![&cd])];
+    let sets: Vec<(&str, Vec<&String>, Vec<&String>)> = vec![("1x1", vec![&r5], vec![&d[0]]), ("2x3", vec![&r5, &rb], vec![&d[0], &d[1], &d[2]]), ("query-query", vec![&rc], vec![&d[0], &d[1]]), ("cfn", vec![&cr], vec![&cd]), ("cfn+generic", vec![&cr, &r5], vec![&cd])];
     for (sn, rs, ds) in &sets {
         for (mn, extra, cmp) in [
             ("summary-all", vec!["-S", "all"], "lines"),
